@@ -41,6 +41,10 @@ def make_splitter(case):
                "duplicate": [s for s in names if case["modes"][s] == "duplicate"]}
         if case.get("list_binomial"):
             opt["binomial"] = [s for s in names if case["modes"][s] == "binomial"]
+        if case.get("reconfigure"):
+            # the same splitter object configured before with other modes: only the last configuration counts
+            vs.py_set_partitioning({"perfect": list(names[::2]), "duplicate": list(names[1::2])}, M)
+            opt = {k_: v_ for k_, v_ in opt.items() if v_}       # (keys with empty lists left out altogether)
         vs.py_set_partitioning(opt, M)
         vs.py_set_partition_noise(float(case["noise"]))
         modes = dict(case["modes"])
@@ -485,6 +489,7 @@ def splitter_cases(draw, stat=False):
         case["modes"] = {s: draw(st.sampled_from(mode_pool)) for s in names}
         case["noise"] = draw(st.sampled_from([0.0, 0.05, 0.2, 0.4]))
         case["list_binomial"] = draw(st.booleans())
+        case["reconfigure"] = draw(st.booleans())
     elif cls == "lineage":
         opt = {"default": draw(st.sampled_from(["binomial", "perfect", "duplicate"])),
                "volume": draw(st.sampled_from(["binomial", "binomial", "perfect", "duplicate"]))}
